@@ -4,6 +4,7 @@
 import PcVerif.Model.Scc.Finish
 import PcVerif.Lemmas.SccTimeLemmas
 import PcVerif.Lemmas.SccFrameLemmas
+import PcVerif.Lemmas.PopOnStops
 namespace PcVerif.Props.C06
 open PcVerif PcVerif.Scc
 
@@ -103,5 +104,36 @@ theorem words_count_frames (ws : List String) (r : Reader) (h : ∀ w ∈ ws, Is
 theorem eoc_stamps_now (r : Reader) (nxt : Option String) (t : Rat) (h : timeOf r.tc r.frames r.off = some t) :
     (command r "942f" nxt).time = t :=
   eoc_time r nxt t h
+
+/-- **C06 (the captions of a written file start and end at the frames their commands are sent).** for a file of pop-on
+    captions as the SCC writer lays them out in which every caption has a clearing line of its own and begins at least five
+    frames after the previous one was cleared (`SpacedFrom`), any time codes, any offset: the reader model stores exactly the
+    written captions, in order, each starting at the instant of its End-Of-Caption word (`eoc`: the line's time code plus one
+    frame per word before it) and ending at the instant of its clearing line's first word — no caption is joined to its
+    neighbour, retimed, or given the default four seconds; nodes and position as in C17's `written_file_restored` -/
+theorem written_captions_start_and_end (xs : List (SccW.FileCap × Rat × Rat)) (off : Rat)
+    (h : ∀ x ∈ xs, SccW.Timed (off * 1000000) x) (hsp : SccW.SpacedFrom none xs) :
+    (run (SccW.fileText (xs.map (·.1))) off).S.stash = xs.map (fun x => SccW.cap4 (x.1.lines, x.2.1, x.2.2)) :=
+  SccW.file_stored4 xs off h hsp
+
+/-- non-vacuity: a one-row caption sent at 00:00:01:00 and cleared at 00:00:03:00 meets `Timed` — its End-Of-Caption word is word
+    number 9 of its line (1 301 300 µs), its clearing line stands for 3 003 000 µs — and a list of one caption is `SpacedFrom none` -/
+example : SccW.Timed 0 (⟨"00:00:01:00".toList, ["Hi".toList], some "00:00:03:00".toList⟩, 1301300, 3003000) ∧
+    SccW.SpacedFrom none [(⟨"00:00:01:00".toList, ["Hi".toList], some "00:00:03:00".toList⟩, 1301300, 3003000)] := by
+  have hbasic : ∀ l ∈ ["Hi".toList], ∀ x ∈ l, SccW.Basic x := by
+    have key : ∀ l ∈ ["Hi".toList], ∀ x ∈ l, Generated.Scc.charToCode.any (fun e => e.1 == String.singleton x) = true := by decide +kernel
+    intro l hl x hx
+    obtain ⟨e, he, hk⟩ := List.any_eq_true.mp (key l hl x hx)
+    exact ⟨e, he, by simpa using hk⟩
+  have hstamp : ∀ t ∈ ["00:00:01:00".toList, "00:00:03:00".toList], ∀ c ∈ t, SccW.isStamp c = true := by decide
+  have htidy : ∀ l ∈ ["Hi".toList], l ≠ [] ∧ Str.rstrip l = l := by decide +kernel
+  refine ⟨⟨⟨hstamp _ (by simp), by decide, hbasic, ?_⟩, ⟨by decide, by decide, fun m hm => ⟨htidy m hm, hbasic m hm⟩⟩, ?_, _, rfl, ?_⟩, ?_⟩
+  · intro t ht; simp only [Option.some.injEq] at ht; subst ht; exact hstamp _ (by simp)
+  · show timeOf "00:00:01:00" ((SccW.rowsWords 15 ["Hi".toList]).length + 6) 0 = some 1301300
+    have : (SccW.rowsWords 15 ["Hi".toList]).length = 3 := by decide +kernel
+    rw [this]; decide +kernel
+  · show timeOf "00:00:03:00" 0 0 = some 3003000
+    decide +kernel
+  · exact ⟨fun s hs => by simp at hs, trivial⟩
 
 end PcVerif.Props.C06
